@@ -242,6 +242,50 @@ def run(F, R, ctx):
                    "SharedPacked::%s reads with fetch_and(mask), which clears every other bit of the shared word; it is "
                    "called from %s" % (nm, ", ".join(lib.short_name(c) for c in cs)), F.fns[n].loc(), sample=True)
 
+    # ---------------- f: the hand-over protocol between owner and non-owners
+    R.rule("C05.f", "hand-over protocol: the merge routines add the owner's count into the shared word and set the merged flag "
+                    "in the same compare-exchange (update_counter + set_merged(true) on the retry path); the owner's last "
+                    "decrement sets merged; a non-owner decrement that drives the shared count negative sets queued "
+                    "(set_queued(true)) and reports Queue; Deallocate is reported only with merged set and count zero")
+    def calls_with(fn, rx, const=None):
+        out = []
+        for i, b in fn.calls():
+            if re.search(rx, b["callee"]) and (const is None or const in b["args"]):
+                out.append(i)
+        return out
+    for rx in (r"^steel_rc::\{impl BiasedMerge for BiasedRc<T>\}::merge$", r"^steel_rc::\{impl QueueHandle\}::explicit_merge$"):
+        fn = F.one(rx)
+        cas = fn.call_blocks(r"\{impl SharedPacked\}::compare_exchange$")
+        upd = [b for b in fn.call_blocks(r"\{impl Packed\}::update_counter$")]
+        mer = calls_with(fn, r"\{impl Packed\}::set_merged$", "const:1")
+        reads_biased = any(e[1] == "RcWord" and e[2] == "biased_counter" for _, e in lib.family_events(F, fn, "fld"))
+        ok = bool(cas) and bool(upd) and bool(mer) and reads_biased
+        for c in cas:
+            cyc = fn.reachable_from(fn.succ(c))
+            ok = ok and any(m_ in cyc or m_ in fn.dominators().get(c, ()) for m_ in mer)
+        R.inst("C05.f", "%s merges the owner count and sets merged" % fn.short(), ok,
+               "%s no longer adds RcWord.biased_counter into the shared word and sets the merged flag in its compare-exchange: "
+               "non-owner decrements can then never observe 'merged and zero', so the value leaks — or the owner frees it "
+               "while its own count is not accounted for" % fn.short(), fn.loc(), sample=True)
+    fd = F.one(r"^steel_rc::\{impl RcBox<T>\}::fast_decrement$")
+    R.inst("C05.f", "fast_decrement sets merged when the owner count reaches zero",
+           bool(calls_with(fd, r"\{impl Packed\}::set_merged$", "const:1")) and bool(fd.call_blocks(r"\{impl SharedPacked\}::compare_exchange$")),
+           "RcBox::fast_decrement no longer publishes the merged flag when the owner drops its last reference: the remaining "
+           "non-owner references can never trigger deallocation", fd.loc(), sample=True)
+    sd = F.one(r"^steel_rc::\{impl RcBox<T>\}::slow_decrement$")
+    q = calls_with(sd, r"\{impl Packed\}::set_queued$", "const:1")
+    okq = bool(q)
+    if okq:
+        # only under a test of the counter's sign
+        gc_ = sd.call_blocks(r"\{impl Packed\}::get_counter$")
+        dom = sd.dominators()
+        okq = all(any(g in dom[x] for g in gc_) for x in q)
+    aggs = sorted(set(e[2] for _, _, e in sd.events("agg") if e[1] == "DecrementAction"))
+    R.inst("C05.f", "slow_decrement queues on a negative shared count and can report Queue/Deallocate/DoNothing",
+           okq and {"Queue", "Deallocate", "DoNothing"} <= set(aggs) and bool(sd.call_blocks(r"\{impl Packed\}::get_merged$")),
+           "RcBox::slow_decrement no longer sets the queued flag under a test of the shared count, or cannot report one of "
+           "Queue / Deallocate / DoNothing (reports: %s)" % aggs, sd.loc(), sample=True)
+
     # ---------------- d
     gm = F.one(r"^steel_rc::\{impl BiasedRc<T>\}::get_mut$")
     hu = gm.call_blocks(r"\{impl RcBox<T>\}::has_unique_ref$")
